@@ -21,6 +21,13 @@ namespace vu::raw
       return normal< Rule >::template match< apply_mode::action, rewind_mode::required, nothing, normal >( in, st... );
    }
 
+   // the same with actions disabled (inside at<>, not_at<>, disable<>): what a raw string matches does not depend on the apply mode
+   template< typename Rule, typename Input, typename... States >
+   bool m0( Input& in, States&&... st )
+   {
+      return normal< Rule >::template match< apply_mode::nothing, rewind_mode::required, nothing, normal >( in, st... );
+   }
+
    using lua = raw_string< '[', '=', ']' >;
    using custom = raw_string< '(', '*', ')' >;
    using lua_alpha = raw_string< '[', '=', ']', not_one< 'x' > >;        // content restricted by a sub-rule that can also eat bracket characters
@@ -31,6 +38,7 @@ namespace vu::raw
    {
       std::size_t ms = 0;
       std::size_t n = m< lua >( in ) + m< custom >( in ) + m< lua_alpha >( in ) + m< lua_two >( in );
+      n += m0< lua >( in ) + m0< lua_two >( in );
       n += m< I::raw_string_open< '[', '=' > >( in, ms );
       n += m< I::at_raw_string_close< '=', ']' > >( in, ms );
       n += m< I::raw_string_until< I::at_raw_string_close< '=', ']' > > >( in, ms );
